@@ -66,21 +66,9 @@ func builderType(fn *ssa.Function, sf *storeFacts) (bt *types.Named, cf, ff int,
 // the loop header) for one kind of event and one value of the builder's flag field. Reads and writes of the builder's
 // flag field are followed; methods of the builder that are neither the inheriting function H nor constructing helpers
 // are walked in place, with their parameters bound to the caller's values.
-func (w *World) simulateBuilderIteration(fn *ssa.Function, pull *ssa.Call, H *ssa.Function, sf *storeFacts, bt *types.Named, cf, ff int, kind string, flagVal bool) builderOutcome {
+func (w *World) simulateBuilderIteration(fn *ssa.Function, es *eventSrc, H *ssa.Function, sf *storeFacts, bt *types.Named, cf, ff int, kind string, flagVal bool) builderOutcome {
 	o := builderOutcome{h: -1, first: -1, hArgOK: true}
-	var isEndV, errV, nodeV ssa.Value
-	for _, rr := range referrers(pull) {
-		if ex, ok := rr.(*ssa.Extract); ok {
-			switch ex.Index {
-			case 0:
-				nodeV = ex
-			case 1:
-				isEndV = ex
-			case 2:
-				errV = ex
-			}
-		}
-	}
+	isEndV, errV, nodeV := es.isEnd, es.err, es.node
 	isBuilderPtr := func(v ssa.Value) bool {
 		p, ok := v.Type().(*types.Pointer)
 		return ok && types.Identical(p.Elem(), bt)
@@ -198,7 +186,7 @@ func (w *World) simulateBuilderIteration(fn *ssa.Function, pull *ssa.Call, H *ss
 	depthFrames := 0
 	var exec func(g *ssa.Function, b *ssa.BasicBlock, from int, top bool) bool
 	exec = func(g *ssa.Function, b *ssa.BasicBlock, from int, top bool) bool {
-		header := pull.Block()
+		header := es.header
 		var prev *ssa.BasicBlock
 		visits := map[*ssa.BasicBlock]int{}
 		for steps := 0; steps < 400; steps++ {
@@ -346,7 +334,7 @@ func (w *World) simulateBuilderIteration(fn *ssa.Function, pull *ssa.Call, H *ss
 		o.und = "the iteration does not end"
 		return false
 	}
-	if exec(fn, pull.Block(), instrIndex(pull)+1, true) {
+	if exec(fn, es.header, es.start, true) {
 		o.nextFlag = fmt.Sprint(flagCur)
 	}
 	return o
@@ -361,4 +349,79 @@ func nodeVOf(call *ssa.Call, nodeV ssa.Value, res func(ssa.Value) ssa.Value) ssa
 		}
 	}
 	return nodeV
+}
+
+// eventSrc: where the store's loop gets its events. One Pull call whose three results are read directly, or several
+// Pull calls (`for n, end, err := p.Pull(); ...; n, end, err = p.Pull()`) merged by three phis at the loop header.
+type eventSrc struct {
+	node, isEnd, err ssa.Value
+	header           *ssa.BasicBlock
+	start            int // index in header of the first instruction of an iteration
+	pulls            []*ssa.Call
+}
+
+func storeEventSource(fn *ssa.Function) *eventSrc {
+	es := &eventSrc{}
+	allInstrs(fn, func(in ssa.Instruction) {
+		if c, ok := in.(*ssa.Call); ok && c.Call.IsInvoke() && c.Call.Method.Name() == "Pull" {
+			es.pulls = append(es.pulls, c)
+		}
+	})
+	if len(es.pulls) == 0 {
+		return nil
+	}
+	extractOf := func(c *ssa.Call, idx int) ssa.Value {
+		for _, rr := range referrers(c) {
+			if ex, ok := rr.(*ssa.Extract); ok && ex.Index == idx {
+				return ex
+			}
+		}
+		return nil
+	}
+	if len(es.pulls) == 1 {
+		p := es.pulls[0]
+		es.node, es.isEnd, es.err = extractOf(p, 0), extractOf(p, 1), extractOf(p, 2)
+		es.header, es.start = p.Block(), instrIndex(p)+1
+		return es
+	}
+	// phis that merge the same result of every Pull call
+	for _, b := range fn.Blocks {
+		var got [3]ssa.Value
+		nphi := 0
+		for _, in := range b.Instrs {
+			ph, ok := in.(*ssa.Phi)
+			if !ok {
+				break
+			}
+			nphi++
+			idx := -1
+			all := true
+			for _, e := range ph.Edges {
+				ex, ok := e.(*ssa.Extract)
+				if !ok {
+					all = false
+					break
+				}
+				c, ok := ex.Tuple.(*ssa.Call)
+				if !ok || !c.Call.IsInvoke() || c.Call.Method.Name() != "Pull" {
+					all = false
+					break
+				}
+				if idx >= 0 && idx != ex.Index {
+					all = false
+					break
+				}
+				idx = ex.Index
+			}
+			if all && idx >= 0 && idx < 3 {
+				got[idx] = ph
+			}
+		}
+		if got[1] != nil && got[2] != nil {
+			es.node, es.isEnd, es.err = got[0], got[1], got[2]
+			es.header, es.start = b, nphi
+			return es
+		}
+	}
+	return nil
 }
